@@ -41,6 +41,18 @@ function buildValue(spec, state) {
       state.fnIds.set(f, id);
       return f;
     }
+    case 'seqfn': {
+      // stateful function: the n-th call returns "<id>#n" (distinguishes evaluations)
+      const id = spec.id;
+      let n = 0;
+      const f = function () {
+        n += 1;
+        state.trace.push('call:' + id);
+        return id + '#' + n;
+      };
+      state.fnIds.set(f, id);
+      return f;
+    }
     case 'vnode': {
       const v = state.vue.createVNode('mark', { id: spec.id }, null);
       return v;
@@ -216,7 +228,12 @@ async function evalModule(code, envSpec, protocol) {
     const t0 = state.trace.length;
     if (protocol.callThunks && typeof v === 'function' && n.startsWith('thunk')) {
       try {
-        v = v();
+        if (protocol.callThunksTwice) {
+          // two evaluations, canonicalised (slots invoked) only after both have happened
+          const first = v();
+          const second = v();
+          v = [first, second];
+        } else v = v();
       } catch (e) {
         out.exports[n] = canonError(e, 'thunk');
         traces[n] = state.trace.slice(t0);
